@@ -55,6 +55,11 @@ def programs(t):
                     lines.append(line(T(srep, -sh), drep, tag, 'VIA_CONVERT'))
                     if sh in (1, 3, 8):
                         lines.append(line(T(srep, -sh), drep, tag, 'VIA_CTOR'))
+                    # a POSITIVE source exponent (whole numbers with trailing zero bits): loses no digits, must be exact
+                    if sh in (1, 3):
+                        lines.append(line(T(srep, sh), drep, tag, 'VIA_CONVERT'))
+                        lines.append(line(T(srep, sh), drep, tag, 'VIA_CTOR'))
+                        lines.append(line(T(srep, 0), drep, tag, 'VIA_CONVERT'))
             # loss-free (destination finer or equal)
             if tag != 'NEA':  # convert<nearest_rounding_tag, finer-or-equal destination> is not instantiable (empty specialisation)
                 lines.append(line(T(srep, -2), T(drep, -4), tag, 'VIA_CONVERT'))
